@@ -124,6 +124,9 @@ def run(ctx):
         else:
             L = rng.integers(4, 40, 3)
             tilt = [int(rng.integers(-L[0], L[0] + 1)) if rng.random() < .7 else 0 for _ in range(3)]
+            if ci % 8 == 1:      # thin cell whose tilt nearly equals lx: b - a is shorter than a and b
+                L[1] = int(rng.integers(2, 6))
+                tilt[0] = int(L[0] - rng.integers(0, 3))
         v = [[int(L[0]), 0, 0], [tilt[0], int(L[1]), 0], [tilt[1], tilt[2], int(L[2])]]
         if rng.random() < .3:        # not LAMMPS oriented: signed permutation of the Cartesian axes
             perm = rng.permutation(3)
@@ -146,6 +149,8 @@ def run(ctx):
         spread = (0, 1) if ci % 3 else (-2, 3)
         P0 = ptsrel(npair, *spread)
         P1 = ptsrel(npair, *spread)
+        if ci % 4 == 1:          # close pairs: the direct separation is short, a lattice image may still be shorter in a tilted cell
+            P1 = P0 + rng.integers(-6, 7, P0.shape)
         f0, f1 = P0 / Q, P1 / Q
         tag = 'cell%d' % ci
         try:
